@@ -79,6 +79,7 @@ type Grammar struct {
 	Tight         bool     // whitespace may be omitted next to literal tokens
 	Seps          []string // separators (ignored-token text) used between tokens; default " "
 	HeaderImports []string // extra import lines of the file header, e.g. `"fmt"`
+	HeaderCode    string   // Go declarations written into the file header after the import block
 	RawUsesToken  bool     // a raw action uses a $T form: the header must import the token package
 	Big           bool     // about a thousand LR(1) states: seconds per gocc run; quick tiers of C09 skip it
 	GoccOnly      bool     // only used by the checks that run gocc itself (C09, C11), not by the parser drivers
@@ -254,7 +255,11 @@ func (g *Grammar) Render(pkg, actImport string) string {
 		if g.UsesTokenForm() {
 			fmt.Fprintf(&b, "\t%q\n", pkg+"/token")
 		}
-		b.WriteString(")\n>>\n\n")
+		b.WriteString(")\n")
+		if g.HeaderCode != "" {
+			b.WriteString("\n" + g.HeaderCode + "\n")
+		}
+		b.WriteString(">>\n\n")
 	}
 	for _, p := range g.Prods {
 		fmt.Fprintf(&b, "%s\n", p.Head)
@@ -346,4 +351,65 @@ func (a *Alt) NumAttr() int {
 		n++
 	}
 	return n
+}
+
+// Shapes says, for every act.N label, what each argument of the call must be:
+// "err" (the error attribute of an `error` alternative), "tok:<id>" (a token of
+// that type), "tok" (some token), "any" (a nonterminal's attribute), "const".
+// Labels shared by alternatives of different shapes are left out.
+func (g *Grammar) Shapes() map[int][]string {
+	out := map[int][]string{}
+	bad := map[int]bool{}
+	for _, p := range g.Prods {
+		for _, a := range p.Alts {
+			if a.Action.Kind != ActCall {
+				continue
+			}
+			sh := make([]string, 0, len(a.Action.Args))
+			for _, r := range a.Action.Args {
+				switch {
+				case r.Const != "":
+					sh = append(sh, "const")
+				case a.Error && r.Index == 0:
+					sh = append(sh, "err")
+				default:
+					i := r.Index
+					if a.Error {
+						i--
+					}
+					if i < 0 || i >= len(a.Syms) {
+						sh = append(sh, "any")
+						continue
+					}
+					switch sym := a.Syms[i]; sym.Kind {
+					case Tok:
+						sh = append(sh, "tok:"+sym.Name)
+					case Lit:
+						plain := sym.Name != ""
+						for _, c := range sym.Name {
+							if c < '!' || c > '~' || c == '\\' || c == '"' || c == '`' || c == '\'' {
+								plain = false
+							}
+						}
+						if plain {
+							sh = append(sh, "tok:"+sym.Name)
+						} else {
+							sh = append(sh, "tok")
+						}
+					default:
+						sh = append(sh, "any")
+					}
+				}
+			}
+			l := a.Label()
+			if old, ok := out[l]; ok && strings.Join(old, "|") != strings.Join(sh, "|") {
+				bad[l] = true
+			}
+			out[l] = sh
+		}
+	}
+	for l := range bad {
+		delete(out, l)
+	}
+	return out
 }
